@@ -358,6 +358,59 @@ func checkC14(c *core.Ctx, r *core.Report) {
 	}
 	checkAtomic(c, r, tbl, []string{"segmeta.json", "metricmeta.json"}, map[string]string{})
 
+	// ---------------------------------------------------------------- (6) the directories to remove come from the segment keys
+	// SegMeta.SegbaseDir is an optional field of a segmeta.json line (`omitempty`; lines written by older releases lack
+	// it), while the segment key is always there.  A directory name taken from the optional field is "" for such a line,
+	// os.RemoveAll("") removes nothing, and the later steps still drop the segment from the metadata: its files stay on
+	// disk for good.  Every key put into the set handed to RemoveSegBasedirs is computed from a segment key
+	// (utils.GetSegBaseDirFromFilename), or comes from a field only where it is known to be non-empty.
+	{
+		baseOf := c.Obj(pkgUtils, "GetSegBaseDirFromFilename")
+		n := 0
+		for _, call := range callsTo(dsd, removeBase) {
+			set := call.Call.Args[0]
+			if refs := set.Referrers(); refs != nil {
+				for _, u := range *refs {
+					mu, ok := u.(*ssa.MapUpdate)
+					if !ok || mu.Map != set {
+						continue
+					}
+					n++
+					fromKey, fromField := false, false
+					for _, o := range c.Origins(mu.Key, 0) {
+						if o.Kind == "call" && o.Obj == baseOf {
+							fromKey = true
+						}
+						if o.Kind == "field" {
+							fromField = true
+						}
+					}
+					nonEmpty := false
+					for _, b := range dsd.Blocks {
+						for _, in := range b.Instrs {
+							if cmp, ok := in.(*ssa.BinOp); ok && (cmp.Op == token.NEQ || cmp.Op == token.EQL) && (cmp.X == mu.Key || cmp.Y == mu.Key) {
+								other := cmp.Y
+								if cmp.Y == mu.Key {
+									other = cmp.X
+								}
+								if s, ok := core.ConstStringValue(other); ok && s == "" {
+									k := core.BoolKnownAt(cmp, mu.Block())
+									if (cmp.Op == token.NEQ && k == core.Yes) || (cmp.Op == token.EQL && k == core.No) {
+										nonEmpty = true
+									}
+								}
+							}
+						}
+					}
+					r.Check(fromKey || (fromField && nonEmpty), "DEPENDS", fmt.Sprintf("%s:directory-to-remove#%d-comes-from-the-segment-key", shortFn(dsd), n), c.Pos(mu.Pos()),
+						"computed from the segment key (or a field known to be non-empty)",
+						"a directory to remove is taken from an optional field of the segmeta entry without knowing that it is set: for entries written by older releases it is empty, nothing is removed, the later steps still drop the segment from the metadata and its files stay on disk for good")
+				}
+			}
+		}
+		r.Floor("DEPENDS", "directories put into the set handed to RemoveSegBasedirs", n, 1)
+	}
+
 	// ---------------------------------------------------------------- (5) the rewrite of segmeta.json is one critical section
 	// removeSegmetas reads segmeta.json, drops the removed entries and renames the rewritten file into place.  Rotation
 	// appends entries to the same file under smrLock.  The read and the rewrite must therefore happen in ONE write-locked
